@@ -88,7 +88,7 @@ def run(ctx):
     # may-raise sites found by E3/E3'
     e3 = e3mod.get(model)
     for f in e3.may_raise():
-        dirty = sorted(f.event["dirty"])
+        dirty = sorted(set(d for x in e3.occurrences(f) for d in x["dirty"]))
         ok = not dirty
         ctx.ob("R09.exit", "may-raise %s at %s" % (f.may_raise, f.construct), ok, f.event,
                "" if ok else "%s; the exception leaves the command with uncommitted "
